@@ -15,6 +15,34 @@ use crate::refs::{self, RefMsg};
 // Scripted reader / writer
 
 /// Every kind of hard I/O failure a port can report (everything but Interrupted, which means "try again").
+/// The error a scripted stream / sink / port fails with. For four of the kinds the error CARRIES another error — what a
+/// reader or writer that is itself built on this library (a tunnel, a bridge, a recording wrapper) hands up: a `FrameError`
+/// of its own (a parse error, or an i/o error of its own), or another `io::Error`. To the caller it is an i/o failure of
+/// the outer kind like any other; the payload is the stream's business and must come through untouched.
+pub fn fault_error(kind: io::ErrorKind, text: &'static str) -> io::Error {
+    use flipdot_core::FrameError;
+    match kind {
+        io::ErrorKind::InvalidData => io::Error::new(kind, FrameError::BadChecksum { data: b":zz".to_vec(), expected: 0x00, actual: 0xFE }),
+        io::ErrorKind::InvalidInput => io::Error::new(kind, FrameError::FrameDataMismatch { data: b":0000000000".to_vec(), expected: 2, actual: 1 }),
+        io::ErrorKind::NotFound => io::Error::new(kind, FrameError::from(io::Error::new(io::ErrorKind::TimedOut, "the tunnel's own port timed out"))),
+        io::ErrorKind::Unsupported => io::Error::new(kind, io::Error::new(io::ErrorKind::Interrupted, "an interrupted call inside the stream")),
+        _ => io::Error::new(kind, text),
+    }
+}
+
+/// Is the payload `fault_error` put into an error of this kind still there?
+pub fn payload_intact(e: &io::Error) -> bool {
+    use flipdot_core::FrameError;
+    let inner = e.get_ref();
+    match e.kind() {
+        io::ErrorKind::InvalidData => matches!(inner.and_then(|x| x.downcast_ref::<FrameError>()), Some(FrameError::BadChecksum { expected: 0x00, actual: 0xFE, .. })),
+        io::ErrorKind::InvalidInput => matches!(inner.and_then(|x| x.downcast_ref::<FrameError>()), Some(FrameError::FrameDataMismatch { expected: 2, actual: 1, .. })),
+        io::ErrorKind::NotFound => matches!(inner.and_then(|x| x.downcast_ref::<FrameError>()), Some(FrameError::Io { source }) if source.kind() == io::ErrorKind::TimedOut),
+        io::ErrorKind::Unsupported => matches!(inner.and_then(|x| x.downcast_ref::<io::Error>()), Some(x) if x.kind() == io::ErrorKind::Interrupted),
+        _ => true,
+    }
+}
+
 pub const HARD_KINDS: [io::ErrorKind; 17] = [
     io::ErrorKind::Other,
     io::ErrorKind::TimedOut,
@@ -139,7 +167,7 @@ impl Read for FragReader {
             t0,
             t1: Instant::now(),
         });
-        r.map_err(|k| io::Error::new(k, "scripted read fault"))
+        r.map_err(|k| fault_error(k, "scripted read fault"))
     }
 }
 
@@ -232,7 +260,7 @@ impl Write for FragWriter {
             t0,
             t1: Instant::now(),
         });
-        r.map_err(|k| io::Error::new(k, "scripted write fault"))
+        r.map_err(|k| fault_error(k, "scripted write fault"))
     }
     fn flush(&mut self) -> io::Result<()> {
         self.flushes += 1;
@@ -448,7 +476,7 @@ impl Read for InstrPort {
             }
         };
         self.st.borrow_mut().push(PortEv::Read { requested: buf.len(), returned: r }, t0);
-        r.map_err(|k| io::Error::new(k, "port read fault"))
+        r.map_err(|k| fault_error(k, "port read fault"))
     }
 }
 
@@ -493,7 +521,7 @@ impl Write for InstrPort {
                 f();
             }
         }
-        r.map_err(|k| io::Error::new(k, "port write fault"))
+        r.map_err(|k| fault_error(k, "port write fault"))
     }
     fn flush(&mut self) -> io::Result<()> {
         let mut st = self.st.borrow_mut();
